@@ -105,8 +105,16 @@ impl<'a> Gen<'a> {
     pub fn text(&mut self) -> String {
         const ALPH: &[&str] = &[
             "a", "b", "c", "x", "y", "z", "/", " ", "-", "0", "1", "A", "é", "ß", "€", "中", "😀",
-            "\u{a0}", "\t", "\n", "_",
+            "\u{a0}", "\t", "\n", "_", ";", "=", "\"", "+", ".", ",", ":", "*", "%",
         ];
+        // texts that spell registered names or numbers (a text label is never the registered one)
+        const NAMES: &[&str] = &[
+            "iss", "sub", "aud", "exp", "nbf", "iat", "cti", "alg", "crit", "kid", "iv", "kty", "key_ops", "crv", "x", "y", "d",
+            "k", "1", "-1", "0", "4", "ES256", "EdDSA", "sign", "verify",
+        ];
+        if self.ratio(1, 16) {
+            return (*self.pick(NAMES)).to_string();
+        }
         let n = match self.weighted(&[5, 5, 2, 1]) {
             0 => self.below(3),
             1 => self.below(8),
